@@ -319,7 +319,8 @@ pub fn disturbance_pass<T: Sync>(
                 sc.spawn(move || {
                     barrier.wait();
                     for j in 0..len.min(4000) {
-                        let i = (j + k * len / T) % len;
+                        // all threads start on the same items (maximum contention on first use), then spread out
+                        let i = if j < 48 { (j * 5) % len } else { (j + k * len / T) % len };
                         let msg = match guard(|| check(&items[i])) {
                             Ok(Ok(())) => continue,
                             Ok(Err(m)) => m,
@@ -399,18 +400,19 @@ pub fn disturbance_pass<T: Sync>(
     });
     // hot sets: all threads hammer the same few items over and over (a race on one memo line, an
     // entry that is only served from its third request)
-    let hot_rounds = 300usize;
-    let n_sets = 24usize.min(len);
+    let hot_rounds = 100usize;
+    let hot_size = 64usize.min(len);
+    let n_sets = 12usize.min(len);
     if first.lock().unwrap().is_none() {
         for set in 0..n_sets {
-            let hot: Vec<usize> = (0..8).map(|j| (set * 9973 + j * (len / 8 + 1) + j * j) % len).collect();
+            let hot: Vec<usize> = (0..hot_size).map(|j| (set * 9973 + j * (len / hot_size + 1) + j * j) % len).collect();
             std::thread::scope(|sc| {
                 for k in 0..THREADS {
                     let (first, hot) = (&first, &hot);
                     sc.spawn(move || {
                         for r in 0..hot_rounds {
                             for j in 0..hot.len() {
-                                let i = hot[(j * (k + 1) + r) % hot.len()];
+                                let i = hot[(j * (2 * k + 1) + r * (k + 3)) % hot.len()];
                                 let msg = match guard(|| check(&items[i])) {
                                     Ok(Ok(())) => continue,
                                     Ok(Err(m)) => m,
@@ -434,8 +436,8 @@ pub fn disturbance_pass<T: Sync>(
             }
         }
     }
-    let total = (THREADS * rounds * len + THREADS * hot_rounds * 8 * n_sets) as u64;
-    run.generator("items checked from 8 threads at once", "concurrent stress (not schedule-controlled)", None, total, total, "each thread walks the items from its own offset and runs an API disturbance every 24 checks; then 24 hot sets of 8 items are hammered by all threads 300 times each; a property-based harness does not own the schedule, so this finds races only with the probability of the interleaving");
+    let total = (THREADS * rounds * len + THREADS * hot_rounds * hot_size * n_sets) as u64;
+    run.generator("items checked from 8 threads at once", "concurrent stress (not schedule-controlled)", None, total, total, "each thread walks the items from its own offset and runs an API disturbance every 24 checks; then 12 hot sets of 64 items are hammered by all threads 100 times each in different orders; a property-based harness does not own the schedule, so this finds races only with the probability of the interleaving");
     if let Some((i, m)) = first.into_inner().unwrap() {
         let (clause, case, sig) = to_case(&items[i]);
         let id = run.id.clone();
